@@ -62,5 +62,5 @@ Definition served (now : Z) (p : path) (w : wevent) : option wevent :=
 
 Definition wevent_eqb (a b : wevent) : bool :=
   str_eqb (w_id a) (w_id b) && str_eqb (w_pubkey a) (w_pubkey b) && Z.eqb (w_created_at a) (w_created_at b)
-  && Z.eqb (w_kind a) (w_kind b) && list_eqb (list_eqb str_eqb) (w_tags a) (w_tags b)
+  && Z.eqb (w_kind a) (w_kind b) && list_eqb (list_eqb jv_eqb) (w_tags a) (w_tags b)
   && str_eqb (w_content a) (w_content b) && str_eqb (w_sig a) (w_sig b).
